@@ -1078,8 +1078,12 @@ def trlog(T, check=True, twist=False):
                 S = trlog(R, check=False)  # recurse
                 w = base.vex(S)
                 theta = base.norm(w)
-                Ginv = np.eye(3) - S / 2 + (1 / theta - 1 / math.tan(theta / 2) / 2) / theta * S @ S
-                v = Ginv @ t
+                if theta == 0:
+                    # rotation part is the identity to within rounding: pure translation
+                    v = t
+                else:
+                    Ginv = np.eye(3) - S / 2 + (1 / theta - 1 / math.tan(theta / 2) / 2) / theta * S @ S
+                    v = Ginv @ t
                 if twist:
                     return np.r_[v, w]
                 else:
@@ -1121,6 +1125,13 @@ def trlog(T, check=True, twist=False):
             # where acos of the trace alone loses the angle
             skw = (R - R.T) / 2
             st = base.norm(base.vex(skw))
+            if st == 0:
+                # no skew-symmetric part: R differs from the identity only by a symmetric
+                # rounding residue, the rotation vector is zero
+                if twist:
+                    return np.zeros((3,))
+                else:
+                    return np.zeros((3, 3))
             theta = math.atan2(st, (np.trace(R) - 1) / 2)
             skw = skw / st
             if twist:
